@@ -215,5 +215,25 @@ def replay(t):
                         rec["out"], rec["exc"] = "raised", type(e).__name__
                         rec["r"] = world_of([], idtok)[0]
                     yield rec
+            # the writer that has exported already, asked again after the document has grown
+            if shared is not None:
+                try:
+                    extra = odml.Section(name="added-later", type="t", parent=docs[0])
+                    odml.Property(name="late", values=[0, 5, 0], parent=extra)
+                    w2, objs2 = world_of(docs, idtok)
+                    rec = {"fam": "rdf", "src": "model", "t": "import", "sub": sub, "ndocs": ndocs, "variant": variant, "docs": dh, "w": w2,
+                           "out": "ok", "exc": "none", "fmt": "xml", "entry": "reused-after-edit", "imp": [], "digits_only": False}
+                    try:
+                        loaded = RDFReader().from_string(shared.get_rdf_str("xml"), "xml")
+                        r, robjs = world_of(loaded, idtok)
+                        rec["r"] = r
+                        rec["imp"] = ["d%d" % (i + 1) for i in range(len(loaded))]
+                        rec["digits_only"] = digits_only(w2, r)
+                    except Exception as e:
+                        rec["out"], rec["exc"] = "raised", type(e).__name__
+                        rec["r"] = world_of([], idtok)[0]
+                    yield rec
+                except Exception:
+                    pass
     finally:
         shutil.rmtree(d, ignore_errors=True)
